@@ -158,22 +158,26 @@ type bundle struct {
 	sw, su                                 stats.Sample // weighted, unweighted (unsorted, ties)
 	kde                                    *stats.KDE
 	kdeB                                   *stats.KDE
-	kde0                                   *stats.KDE // Bandwidth 0: used through private struct copies only
+	kde0                                   *stats.KDE   // Bandwidth 0: used through private struct copies only
+	big        bool
+	fregs      [][2]int          // per float backing: offset and length of the data inside it
+	carvedHash map[string]uint64 // hash of each float backing at the moment it was carved
+	damage     []string          // inputs found modified by the library calls made while the bundle was built
 	swz                                    stats.Sample // weighted with zero weights inside and at the end
 	// results returned by the library when the bundle was built and only
 	// queried afterwards (by many callers at once in the concurrent stages)
-	rDom  *graphalg.DomTree
-	rSub  []graph.Subgraph
-	rSCC  *graphalg.SCCGraph
-	rSimp graph.Weighted
-	lx    []float64 // sorted xs for the shared LOESS fit on all n points
-	loessN func(float64) float64
-	ebacks                                 [][]graph.Edge
-	attrTab                                []graphout.DotAttr // shared table: callbacks return sub-slices with spare capacity
-	lh                                     *stats.LinearHist
-	gh                                     *stats.LogHist
-	marks                                  *graphalg.NodeMarks
-	ss                                     *stats.StreamStats
+	rDom    *graphalg.DomTree
+	rSub    []graph.Subgraph
+	rSCC    *graphalg.SCCGraph
+	rSimp   graph.Weighted
+	lx      []float64 // sorted xs for the shared LOESS fit on all n points
+	loessN  func(float64) float64
+	ebacks  [][]graph.Edge
+	attrTab []graphout.DotAttr // shared table: callbacks return sub-slices with spare capacity
+	lh      *stats.LinearHist
+	gh      *stats.LogHist
+	marks   *graphalg.NodeMarks
+	ss      *stats.StreamStats
 	// closures returned by the library, shared by all callers of the bundle
 	invT, invB, invK   func(float64) float64
 	genT               func(*rand.Rand) float64
@@ -215,6 +219,11 @@ func (b *bundle) carveF(name string, rng *mon.Rand, xs []float64) []float64 {
 	copy(back[pre:], xs)
 	b.fbacks = append(b.fbacks, back)
 	b.names = append(b.names, name)
+	b.fregs = append(b.fregs, [2]int{pre, len(xs)})
+	if b.carvedHash == nil {
+		b.carvedHash = map[string]uint64{}
+	}
+	b.carvedHash[name] = mon.NewHasher().Fs(back).Sum()
 	return back[pre : pre+len(xs) : pre+len(xs)+spare]
 }
 
@@ -290,7 +299,16 @@ func (b *bundle) snapshot() map[string]uint64 {
 func newBundle(seed uint64) *bundle {
 	rng := mon.NewRand(seed, 0xc20)
 	b := &bundle{seed: seed}
+	// seeds with the low five bits clear give BIG bundles (hundreds of
+	// values, a graph of more than 1024 nodes, U-test samples beyond the
+	// exact limits), so that size-selected paths of the library run in every
+	// stage; the stages force a share of such seeds
+	big := seed&31 == 0
+	b.big = big
 	n := rng.Range(6, 30)
+	if big {
+		n = rng.Range(100, 400)
+	}
 	vals := func(n int, pos bool) []float64 {
 		xs := make([]float64, n)
 		k := 2 + rng.Intn(n) // few distinct values -> ties
@@ -318,8 +336,12 @@ func newBundle(seed uint64) *bundle {
 	}
 	b.ws = b.carveF("weights", rng, w)
 	b.xpos = b.carveF("positive xs", rng, vals(n, true))
-	b.x1 = b.carveF("x1", rng, vals(rng.Range(3, 20), false))
-	b.x2 = b.carveF("x2", rng, vals(rng.Range(3, 20), false))
+	nx1, nx2 := rng.Range(3, 20), rng.Range(3, 20)
+	if big {
+		nx1, nx2 = rng.Range(60, 150), rng.Range(60, 150)
+	}
+	b.x1 = b.carveF("x1", rng, vals(nx1, false))
+	b.x2 = b.carveF("x2", rng, vals(nx2, false))
 	np := rng.Range(3, 15)
 	b.p1 = b.carveF("paired x1", rng, vals(np, false))
 	b.p2 = b.carveF("paired x2", rng, vals(np, false))
@@ -362,10 +384,25 @@ func newBundle(seed uint64) *bundle {
 		b.marks.Mark(rng.Intn(1200))
 	}
 	b.lin = &scale.Linear{Min: rng.Uniform(-10, 0), Max: rng.Uniform(1, 100), Base: rng.PickI(0, 2, 10)}
-	l, _ := scale.NewLog(rng.LogUniform(1e-3, 1), rng.LogUniform(10, 1e6), 10)
+	llo, lhi := rng.LogUniform(1e-3, 1), rng.LogUniform(10, 1e6)
+	// orientation and sign of the shared scales vary: reversed axes, a
+	// negative Log domain
+	switch rng.Intn(4) {
+	case 1:
+		b.lin.Min, b.lin.Max = b.lin.Max, b.lin.Min
+	case 2:
+		llo, lhi = lhi, llo
+	case 3:
+		b.lin.Min, b.lin.Max = b.lin.Max, b.lin.Min
+		llo, lhi = -lhi, -llo
+	}
+	l, _ := scale.NewLog(llo, lhi, 10)
 	b.lg = &l
 	// graph: random multigraph, unsorted adjacency with duplicates; node 0 reaches most nodes
 	gn := rng.Range(5, 25)
+	if big {
+		gn = rng.Range(1030, 1300)
+	}
 	g := make([][]int, gn)
 	for i := 0; i < gn; i++ {
 		deg := rng.Intn(5)
@@ -477,8 +514,37 @@ func newBundle(seed uint64) *bundle {
 	b.rSub = []graph.Subgraph{graph.SubgraphKeep(b.g, b.keepNodes, b.keepEdges), graph.SubgraphRemove(b.g, b.rmNodes, b.rmEdges)}
 	b.rSCC = graphalg.SCC(b.g, graphalg.SCCEdges)
 	b.rSimp = graphalg.SimplifyMulti(b.g)
+	// the library calls made while the bundle was built (fits, closures,
+	// dominators, subgraphs) must have left every carved array as it was
+	for i, back := range b.fbacks {
+		if mon.NewHasher().Fs(back).Sum() != b.carvedHash[b.names[i]] {
+			b.damage = append(b.damage, b.names[i])
+		}
+	}
 	b.levels = b.carveF("levels", rng, []float64{0.03, 0.2, 0.41, 0.5, 0.77, 0.9, 0.99, b.y})
 	return b
+}
+
+// refill overwrites the data of every float input array in place with other
+// numbers (x -> 0.75x+1, or its inverse: order, strict monotonicity and
+// positivity are kept; the probability levels stay as they are) and moves
+// the KDE boundaries along.
+func (b *bundle) refill(forward bool) {
+	f := func(x float64) float64 { return 0.75*x + 1 }
+	if !forward {
+		f = func(x float64) float64 { return (x - 1) / 0.75 } // back to (about) the earlier numbers
+	}
+	for i, back := range b.fbacks {
+		if b.names[i] == "levels" {
+			continue
+		}
+		r := b.fregs[i]
+		for k := r[0]; k < r[0]+r[1]; k++ {
+			back[k] = f(back[k])
+		}
+	}
+	b.kdeB.BoundaryMin = f(b.kdeB.BoundaryMin)
+	b.kdeB.BoundaryMax = f(b.kdeB.BoundaryMax)
 }
 
 // entry is one inventory item: a call of one exported function or method on
@@ -881,6 +947,9 @@ var c20Inventory = []entry{
 	}},
 	{"fit.LOESS", []string{"fit.LOESS"}, "fit", func(b *bundle, e *enc) {
 		// distinct, unsorted x (ties in x make the local problem singular)
+		fs := fit.LOESS(b.lx, b.ys, 1, 0.6) // ascending abscissae: no private copy is needed
+		e.F(fs(b.lx[len(b.lx)/2] + 0.0625))
+		e.F(fs(b.lx[0]))
 		f := fit.LOESS(b.grid[:5], b.ys[:5], 1, 0.9)
 		for _, x := range []float64{-2, 0, 1, 3} {
 			e.F(f(x))
@@ -895,9 +964,15 @@ var c20Inventory = []entry{
 		ma, mi := s.Ticks(o)
 		e.Fs(ma)
 		e.Fs(mi)
-		e.I(s.CountTicks(1))
-		e.Fs(s.TicksAtLevel(1).([]float64))
-		l, ok := o.FindLevel(s, 0)
+		// the tick levels of a reversed domain are not defined: the Ticker
+		// methods are called on a private ascending copy
+		t := *s
+		if t.Min > t.Max {
+			t.Min, t.Max = t.Max, t.Min
+		}
+		e.I(t.CountTicks(1))
+		e.Fs(t.TicksAtLevel(1).([]float64))
+		l, ok := o.FindLevel(&t, 0)
 		e.I(l)
 		e.B(ok)
 	}},
@@ -1034,7 +1109,11 @@ func c20Digests(seed uint64, rev bool, m int) map[string]uint64 {
 		if rev {
 			i = m - 1 - bi
 		}
-		b := newBundle(mon.NewRand(seed, 0xd16, uint64(i)).Uint64())
+		sd := mon.NewRand(seed, 0xd16, uint64(i)).Uint64() | 1
+		if i == 2 {
+			sd &^= 31
+		}
+		b := newBundle(sd)
 		for ej := 0; ej < ne; ej++ {
 			j := ej
 			if rev {
@@ -1111,6 +1190,10 @@ func findEntry(name string) *entry {
 func c20One(w *mon.W, seed, otherSeed uint64, only string) {
 	b := newBundle(seed)
 	other := newBundle(otherSeed)
+	w.HitIf(b.big, "big-bundle")
+	if len(b.damage) > 0 {
+		w.Violate("input-modified", fmt.Sprintf("library calls made while the inputs were set up (fits, closures, dominators, subgraphs on freshly carved arrays) modified: %s", strings.Join(b.damage, ", ")), c20Case{seed, ""})
+	}
 	first := map[string][]uint64{}
 	for i := range c20Inventory {
 		en := &c20Inventory[i]
@@ -1160,6 +1243,35 @@ func c20One(w *mon.W, seed, otherSeed uint64, only string) {
 		}
 		if !equalU(f, res) {
 			w.Violate("nondeterministic", fmt.Sprintf("%s: a repeated call with equal arguments (after unrelated calls into every package) returned different bits (%d vs %d words%s)", en.name, len(f), len(res), firstDiff(f, res)), c20Case{seed, en.name})
+		}
+	}
+	// buffer reuse: the caller overwrites its arrays in place with other
+	// numbers (same lengths, same addresses) and calls again. The results
+	// must be those of a never-used twin whose arrays were given the same
+	// numbers before its first call: anything remembered by address or
+	// length alone shows here.
+	if only == "" || strings.HasPrefix(only, "refill:") {
+		twin := newBundle(seed)
+		w.Hit("buffers-refilled-in-place")
+		for i := range c20Inventory {
+			en := &c20Inventory[i]
+			if only != "" && "refill:"+en.name != only {
+				continue
+			}
+			// the entry's last call before the refill is on the very arrays
+			// it is called on again right after it (nothing in between that
+			// could push a remembered result out)
+			runEntry(en, b)
+			b.refill(i%2 == 0)
+			twin.refill(i%2 == 0)
+			got, p2, pv := runEntry(en, b)
+			want, p1, _ := runEntry(en, twin)
+			w.Eval("refill:" + en.pkg)
+			if p2 && !p1 {
+				w.Violate("panic", fmt.Sprintf("%s panicked after the inputs were refilled in place: %v", en.name, pv), c20Case{seed, "refill:" + en.name})
+			} else if !p1 && !equalU(want, got) {
+				w.Violate("stale-after-refill", fmt.Sprintf("%s: after the caller overwrote its arrays in place with other numbers, the call returned something else than on a fresh twin holding those numbers%s", en.name, firstDiff(want, got)), c20Case{seed, "refill:" + en.name})
+			}
 		}
 	}
 	if w.WantSample() {
@@ -1261,11 +1373,15 @@ func c20Run(r *mon.Run) {
 		r.Serial("cross-process-order", 1, func(w *mon.W, _ int) { w.Note("cross-process-order") })
 		return
 	}
+	r.Gate("big-bundle", "buffers-refilled-in-place")
 	// the concurrent stage comes first: the process has made no library call yet
 	c20Concurrent(r, false)
 	nb := r.Pick(150, 1500)
 	r.Parallel("guard+determinism", nb, func(w *mon.W, i int) {
-		seed := w.Rng.Uint64()
+		seed := w.Rng.Uint64() | 1
+		if i%25 == 7 {
+			seed &^= 31 // a big bundle
+		}
 		c20One(w, seed, seed^0x9e3779b97f4a7c15, "")
 		w.Distinct(seed)
 	})
@@ -1285,7 +1401,11 @@ func c20Concurrent(r *mon.Run, race bool) {
 	}
 	bundles := make([]*bundle, nb)
 	for i := range bundles {
-		bundles[i] = newBundle(mon.NewRand(r.Seed, 0xc0c, uint64(i)).Uint64())
+		sd := mon.NewRand(r.Seed, 0xc0c, uint64(i)).Uint64() | 1
+		if i == 1 {
+			sd &^= 31 // one big bundle among the shared ones
+		}
+		bundles[i] = newBundle(sd)
 	}
 	ne := len(c20Inventory)
 	// The shared bundles are COLD: nothing has been called on them (nor, in
